@@ -6,8 +6,8 @@ import (
 
 	"github.com/wollac/iota-crypto-demo/pkg/slip10"
 
-	ref "verifharness/ref/slip10"
 	"verifharness/ref/secp"
+	ref "verifharness/ref/slip10"
 )
 
 // callBudget aborts a derivation that keeps calling into the curve: this is how "retried
@@ -36,10 +36,10 @@ type fault struct {
 // ---- toy Weierstrass curve: P-256 arithmetic, extra validity mask ----
 
 type toyW struct {
-	mask  byte
-	cnt   *counter
-	fault fault
-	nNew  int
+	mask   byte
+	cnt    *counter
+	fault  fault
+	nNew   int
 	nShift *int
 }
 
